@@ -19,7 +19,7 @@ func init() {
 			"positive. R4: entries obtained from the nonce-parametrised reader are written back under a key recomputed from the entry's own metadata nonce: the reader must relate that nonce to the requested one (KNOWN FINDING on this tree, see known_findings.json). " +
 			"R5: the hand-over appends the create role only after a search of the same list for the same constant found nothing. Does NOT decide: the invariant on reachable states as such.",
 		Trusted: []string{"C02-R1, C08-R1 (metadata attached only by create)", "A-deps"},
-		Rules:   []func(*Ctx){c15r1, c15r2, c15r3, c15r4, c15r5},
+		Rules:   []func(*Ctx){c15r1, c15r2, c15r3, c15r4, c15r5, c15r6, c15r7},
 	})
 }
 
@@ -384,4 +384,12 @@ func c15r5(c *Ctx) {
 	if found == 0 {
 		c.Anchor(rule, "the append of the create role to a role list")
 	}
+}
+
+
+// c15r6 / c15r7: the counter held with the create role never falls below an issued nonce (hand-over rules of C07), and no
+// user-chosen write can plant an undecodable or ill-formed protocol entry (SaveKeyValue's key-space guard, C03-R6).
+func c15r6(c *Ctx) { handOverRules(c, "C15-R6", "C15-R6b") }
+func c15r7(c *Ctx) {
+	c.shareRule(c03r6, "C03-R6", "C15-R7", "SaveKeyValue cannot write under a protocol key", nil)
 }
